@@ -25,6 +25,9 @@ def main():
         if a.prop in ("C04", "C05", "C12", "C06", "C11"):
             import suite_expr
             return suite_expr.run(a.prop, a.tier, seed, a.replay)
+        if a.prop in ("C09", "C10", "C15"):
+            import suite_opt
+            return suite_opt.run(a.prop, a.tier, seed, a.replay)
         print("unknown property", a.prop)
         return 2
     except C.Infra as e:
